@@ -2,6 +2,11 @@ import XmpProofs.FmtMod
 import XmpProofs.FmtS3m
 import XmpProofs.FmtXm
 import XmpProofs.FmtIt
+import XmpProofs.FmtS3mFile
+import XmpProofs.FmtItPat
+import XmpProofs.FmtItSex
+import XmpProofs.FmtItFile
+import XmpProofs.FmtXmFile
 /-!
 # C19 — Core-format loaders reproduce what an independent writer encoded
 
@@ -9,30 +14,35 @@ Statement (properties.jsonl): for every well-formed MOD, S3M, XM or IT file prod
 independent encoder from an abstract song, the loaded module contains exactly that song.
 
 Over the models `XmpModel/Fmt{Mod,S3m,Xm,It}.lean` (`write` = the independent encoder written from the
-format descriptions, `read` = the mirror of the libxmp loaders, `Module` = the abstract song in the
-vocabulary of `xmp_get_module_info`):
+format descriptions, `read` = the mirror of the libxmp loaders — the function the check compares with the real
+loaders —, `Module` = the abstract song in the vocabulary of `xmp_get_module_info`), for songs and files of
+every size (structural proofs over lists; `WellFormed` is an explicit decidable predicate, the generators of
+the check satisfy it and each theorem is followed by a non-trivial instance):
 
 * **MOD, whole file** — `C19_roundtrip_mod`: `WellFormed s o → NoAdpcm s.smps → read (write s o) = some s`
   for every signature kind ("M.K.", "M!K!", nCHN, nnCH), every opaque effect stream, every restart byte.
   `C19_mod_adpcm_hypothesis_needed` shows that the `NoAdpcm` hypothesis cannot be dropped.
-* **S3M pattern codec** — `C19_s3m_pattern_codec`: unpack ∘ pack = id for every choice of redundant
-  `what`-byte flags and effect bytes, with the 16-bit length word and arbitrary following bytes.
-* **XM pattern-cell codec** — `C19_xm_cell_codec` / `C19_xm_cells_codec`: unpacked cells and packed cells
-  with every superset of the needed mask bits, opaque effect and volume-column-effect bytes.
-* **IT field codecs** — `C19_it_field_codecs_partial`; **IT sample compression** — `C19_it_compress_block_partial`
-  (see below for what is missing).
-* PCM storage: `C19_pcm_sign8_involutive`, `C19_pcm_sign16_involutive`, `C19_pcm_delta8`, `C19_pcm_delta16`
-  (stereo block ↔ interleaved conversion is not proved).
+* **S3M, whole file** — `C19_roundtrip_s3m`: header, orders, parapointer tables, pan table, sample headers,
+  packed patterns (all `what`-flag choices, stored or parapointer 0), signed/unsigned 8/16-bit mono/stereo PCM.
+* **XM, whole file** — `C19_roundtrip_xm`: `read (write s o) = some (loaded s)` (libxmp appends one empty pattern):
+  every song header size 21..276, pattern headers with packed/unpacked cells and every mask choice or no data,
+  instrument headers of every accepted size (full with key map, stripped, sample-less of any size ≥ 29),
+  sample headers, delta-coded 8/16-bit mono/stereo PCM.  `C19_xm_ogg_window_regression`: the former counterexample
+  of the repaired `is_ogg_sample` defect ("OggS" spelled across two short samples) is well-formed and round-trips.
+* **IT, whole file** — `C19_roundtrip_it`: sample mode and instrument mode (new and old `IMPI` headers with
+  key tables), offset tables, `IMPS` headers with all loop flags, packed patterns with every mask / last-value
+  choice (`C19_it_pattern_codec`), channel count found by the first pass (`C19_it_channel_scan`), plain and
+  IT 2.14 / 2.15 compressed samples (`C19_it_sample_compression`: the model of `itsex.c` against an independent
+  width-switching compressor, whole sample, byte level, multi-block, stereo).
+* codecs used by the above and exported on their own: `C19_s3m_pattern_codec`, `C19_s3m_note_codec`,
+  `C19_s3m_pcm_codec`, `C19_xm_cell_codec`, `C19_xm_cells_codec`, `C19_xm_pcm_codec`, `C19_it_key_table_codec`,
+  `C19_pcm_sign8_involutive`, `C19_pcm_sign16_involutive`, `C19_pcm_delta8`, `C19_pcm_delta16`,
+  `C19_pcm_stereo_blocks`; the older `C19_it_field_codecs_partial` / `C19_it_compress_block_partial` are kept
+  (they are now consequences of the full statements).
 
-Full statements that are NOT proved (the file-level assembly of S3M, XM, IT and the IT mask/last-value
-pattern compression); they are evaluated on every generated case of every run instead (`rt ok` of
-`drv_c19`, evidence keys `*_model_roundtrip_ok`):
-
-    theorem C19_roundtrip_s3m : S3m.WellFormed s o → S3m.read (S3m.write s o) = some s
-    theorem C19_roundtrip_xm  : Xm.WellFormed s o  → Xm.read (Xm.write s o) = some (Xm.loaded s)
-    theorem C19_roundtrip_it  : It.WellFormed s o  → It.read (It.write s o) = some s
-    theorem C19_it_pattern_codec : 1 ≤ chn ∧ chn ≤ 64 → It.PatOk chn p →
-        (It.unpackData chn p.rows (It.pack chn p opt i)).flatten = p.cells
+Not covered by the theorems (the models are silent there, see MANIFEST note of tools/checks/c19.py): XM ≤ 1.03
+layout, AdLib / ADPCM / OGG samples, truncated files, effect columns (opaque bytes), envelopes and every field the
+property does not list.
 -/
 namespace Xmp.Fmt
 open Xmp
@@ -77,6 +87,38 @@ theorem C19_mod_adpcm_hypothesis_needed :
 
 /-! ## S3M -/
 
+/-- **S3M whole-file round trip**: header, order list, both parapointer tables, optional pan table, 80-byte
+sample headers (24-bit paragraph pointers), packed patterns with every redundant `what`-flag choice (stored or
+replaced by parapointer 0 when empty), signed / unsigned, 8 / 16 bit, mono / stereo-block PCM — for songs and
+files of every size the pointer widths of the format can address (`WellFormed` is decidable and explicit). -/
+theorem C19_roundtrip_s3m (s : Module) (o : S3m.Opts) (h : S3m.WellFormed s o) : S3m.read (S3m.write s o) = some s :=
+  S3m.roundtrip s o h
+
+/-- a non-trivial instance: 3 channels, a stored and an empty pattern, markers in the order list, an 8-bit looped
+sample, an empty slot and a 16-bit stereo sample -/
+def s3mExample : Module :=
+  let cell (n i v : Nat) : Cell := { note := n, ins := i, vol := v }
+  { name := Mod.str "s3m example", chn := 3, orders := [0xfe, 1, 0, 0xff, 1],
+    pats := [{ rows := 64, cells := List.replicate 192 {} },
+             { rows := 64, cells := (List.range 192).map fun k =>
+                 if k % 7 = 0 then cell 61 1 0 else if k % 11 = 3 then cell KEY_OFF 0 65 else if k = 5 then cell 0 3 17 else {} }],
+    ins := [{ name := Mod.str "lead", subs := [{ sid := 0, vol := 64, pan := 0x80, xpo := 0, fin := 0 }] },
+            { name := Mod.str "(empty)", subs := [] },
+            { name := [], subs := [{ sid := 2, vol := 17, pan := 0x80, xpo := 0, fin := 0 }] }],
+    smps := [{ name := [], len := 5, lps := 1, lpe := 5, flg := FLOOP, pcm := [1, 2, 3, 250, 128] },
+             { name := [], len := 0, lps := 0, lpe := 0, flg := 0, pcm := [] },
+             { name := [], len := 3, lps := 0, lpe := 0, flg := F16BIT ||| FSTEREO,
+               pcm := [1, 2, 3, 4, 5, 6, 7, 8, 9, 10, 11, 255] }],
+    spd := 4, bpm := 150 }
+
+def s3mExampleOpts : S3m.Opts :=
+  { ffi := 2, pan := some (List.replicate 32 0x27), nullEmpty := true, force := fun i => i % 8, fx := fun i => (u8 i, u8 (3 * i)) }
+
+example : S3m.WellFormed s3mExample s3mExampleOpts := by decide +kernel
+example : S3m.WellFormed s3mExample {} := by decide +kernel
+example : S3m.read (S3m.write s3mExample s3mExampleOpts) = some s3mExample :=
+  C19_roundtrip_s3m _ _ (by decide +kernel)
+
 /-- **S3M pattern codec**, all `what`-flag choices -/
 theorem C19_s3m_pattern_codec (chn : Nat) (p : Pat) (force : Nat → Nat) (fx : Nat → UInt8 × UInt8) (i : Nat)
     (hc : 1 ≤ chn ∧ chn ≤ 32) (hp : S3m.PatOk chn p) (rest : Bytes) :
@@ -89,6 +131,11 @@ example : S3m.PatOk 2 { rows := 64, cells := (List.range 128).map fun k =>
 
 theorem C19_s3m_note_codec {n : Nat} (h : S3m.NoteOk n) : S3m.decNote (S3m.encNote n) = n :=
   S3m.decNote_encNote h
+
+/-- S3M / IT sample storage: signed or unsigned, 8 or 16 bit, mono or two-block stereo -/
+theorem C19_s3m_pcm_codec (unsigned : Bool) (flg len : Nat) (pcm : Bytes) (h : pcm.length = len * frameBytes flg) :
+    S3m.loadPcm unsigned flg len (S3m.storePcm unsigned flg len pcm) = pcm :=
+  S3m.loadPcm_storePcm unsigned flg len pcm h
 
 /-! ## XM -/
 
@@ -104,7 +151,102 @@ theorem C19_xm_cells_codec (cs : List Cell) (h : ∀ c ∈ cs, Xm.CellOk c) (fx 
 
 example : Xm.CellOk { note := KEY_FADE, ins := 7, vol := 33 } ∧ Xm.CellOk { note := 108, ins := 0, vol := 0 } := by decide
 
+/-- **XM whole-file round trip** (version 1.04 layout): every song header size the loader accepts, pattern headers with
+packed / unpacked cells (every redundant mask choice) or no data for empty patterns, instrument headers of every size
+(full header with key map, stripped header, sample-less instruments of any size ≥ 29 up to the end of the file), sample
+headers, delta-coded 8 / 16 bit mono / stereo PCM.  libxmp appends one empty 64-row pattern: `Xm.loaded`. -/
+theorem C19_roundtrip_xm (s : Module) (o : Xm.Opts) (h : Xm.WellFormed s o) : Xm.read (Xm.write s o) = some (Xm.loaded s) :=
+  Xm.roundtrip s o h
+
+example : Xm.WellFormed Xm.xmExample {} := by decide +kernel
+example : Xm.WellFormed Xm.xmExample { hsz := 23, insSize := fun _ => 300, emptyInsSize := 31 } := by decide +kernel
+example : Xm.read (Xm.write Xm.xmExample { hsz := 23, insSize := fun _ => 300, emptyInsSize := 31 }) = some (Xm.loaded Xm.xmExample) :=
+  C19_roundtrip_xm _ _ (by decide +kernel)
+
+/-- regression witness of the repaired `is_ogg_sample` defect (/repo f3de111): a 5-byte sample followed by a sample
+starting "ggS…" spells "OggS" at file offset +4 of the first one; the loader used to take it for an Ogg Vorbis
+sample and refuse the file.  The probe is now bounded by the sample's own stored bytes, the cross-sample hypothesis
+(`NoOgg`) of the theorem is gone, and the former counterexample round-trips. -/
+theorem C19_xm_ogg_window_regression :
+    ((Xm.write Xm.cxOgg {}).drop (336 + 10 + 263 + 80 + 4)).take 4 = Xm.str "OggS" ∧ Xm.WellFormed Xm.cxOgg {} ∧
+    Xm.read (Xm.write Xm.cxOgg {}) = some (Xm.loaded Xm.cxOgg) :=
+  ⟨Xm.cxOgg_window, Xm.cxOgg_wellFormed, Xm.cxOgg_roundtrip⟩
+
+/-- XM sample storage: delta-coded, 8 or 16 bit, mono or two-block stereo -/
+theorem C19_xm_pcm_codec (flg len : Nat) (pcm : Bytes) (h : pcm.length = len * frameBytes flg) :
+    Xm.loadPcm flg len (Xm.storePcm flg len pcm) = pcm :=
+  Xm.loadPcm_storePcm flg len pcm h
+
 /-! ## IT -/
+
+/-- **IT whole-file round trip (sample mode)**: 192-byte header, order list, sample-header and pattern offset tables,
+`IMPS` headers (loop / sustain loop / ping-pong flags, default pan, signed or unsigned, plain or IT 2.14 / 2.15
+compressed, 8 / 16 bit, mono / stereo), packed patterns with every mask / last-value writer choice (stored, or offset 0
+for empty 64-row patterns), channel count recovered by the loader's first pass. -/
+theorem C19_roundtrip_it (s : Module) (o : It.Opts) (h : It.WellFormed s o) : It.read (It.write s o) = some s :=
+  It.roundtrip s o h
+
+/-- a non-trivial instance: 2 channels, a 4-row pattern with repeated values and an empty 64-row pattern, a looped
+8-bit sample with a ping-pong sustain loop, an empty slot, a 16-bit stereo sample stored IT 2.15-compressed -/
+def itExample : Module :=
+  let cell (n i v : Nat) : Cell := { note := n, ins := i, vol := v }
+  { name := Mod.str "it example", chn := 2, orders := [0, 0xfe, 1, 0xff],
+    pats := [{ rows := 4, cells := [cell 61 1 33, cell KEY_OFF 0 0, cell 61 1 33, {}, cell KEY_FADE 3 0, cell 61 1 65, {}, cell KEY_CUT 0 1] },
+             { rows := 64, cells := List.replicate 128 {} }],
+    ins := [{ name := Mod.str "lead", subs := [{ sid := 0, vol := 64, pan := 128, xpo := 0, fin := 0 }] },
+            { name := Mod.str "(empty)", subs := [] },
+            { name := [], subs := [{ sid := 2, vol := 17, pan := 256, xpo := 0, fin := 0 }] }],
+    smps := [{ name := [], len := 5, lps := 1, lpe := 5, flg := FLOOP ||| FSLOOP ||| FSBIDIR, sus := 2, sue := 4,
+               pcm := [1, 2, 3, 250, 128] },
+             { name := [], len := 0, lps := 0, lpe := 0, flg := 0, pcm := [] },
+             { name := [], len := 3, lps := 0, lpe := 0, flg := F16BIT ||| FSTEREO,
+               pcm := [1, 2, 3, 4, 5, 6, 7, 8, 9, 10, 11, 255] }],
+    spd := 4, bpm := 150 }
+
+def itExampleOpts : It.Opts :=
+  { signed := fun i => i % 2 = 0, comp := fun i => if i = 2 then 2 else 0, wsel := fun _ k => 3 + k % 5, nullEmpty := true,
+    cell := fun i => { useLast := 7, forceMask := i % 3 = 0, forceIns := i % 4 = 1, fx := if i % 2 = 0 then some (u8 i, 7) else none, fade := i } }
+
+/-- the same song in instrument mode: two instruments sharing sample 0, key maps in first-appearance order, an
+instrument without samples; `smpVol` / `smpPan` / `insPan` are the header fields the sub-instruments inherit -/
+def itInsExample (isNew : Bool) : Module :=
+  let o : It.Opts := { smpVol := fun i => 40 + i, smpPan := fun i => if i = 2 then some 16 else none,
+                       insPan := fun i => if i = 0 then some 8 else none }
+  let sub (i sid : Nat) : Sub := { sid := sid, vol := 40 + sid, pan := It.subPan o isNew i sid, xpo := 0, fin := 0 }
+  let none' := if isNew then 0xff else 0
+  { itExample with
+    ins := [{ name := Mod.str "duo", subs := [sub 0 2, sub 0 0],
+              keymap := (List.range 120).map (fun j => if j < 10 then none' else if j % 3 = 0 then 1 else 0) ++ [0] },
+            { name := Mod.str "mute", subs := [], keymap := List.replicate 120 none' ++ [0] },
+            { name := [], subs := [sub 2 0], keymap := List.replicate 120 0 ++ [0] }],
+    smps := itExample.smps.zipIdx.map fun (m, i) => { m with name := if i = 1 then Mod.str "unused" else [] } }
+
+def itInsOpts (isNew : Bool) : It.Opts :=
+  { itExampleOpts with
+    insMode := true, cmwt := if isNew then 0x0214 else 0x0100,
+    smpVol := fun i => 40 + i, smpPan := fun i => if i = 2 then some 16 else none,
+    insPan := fun i => if i = 0 then some 8 else none,
+    keyOff := fun i j => i = 1 || (i = 0 && j < 10), envNodes := fun i => 3 * i, filler := fun k => u8 (7 * k) }
+
+example : It.WellFormed (itInsExample true) (itInsOpts true) := by decide +kernel
+example : It.WellFormed (itInsExample false) (itInsOpts false) := by decide +kernel
+example : It.read (It.write (itInsExample false) (itInsOpts false)) = some (itInsExample false) :=
+  C19_roundtrip_it _ _ (by decide +kernel)
+
+/-- **IT key table codec**: the loaders' numbering of the sub-instruments (order of first appearance in the 120-entry
+key table) recovers the sample ids and the key map -/
+theorem C19_it_key_table_codec (noSmp : Nat) (off : Nat → Bool) (S : List Nat) (hn : S.Nodup) (h120 : ∀ c ∈ S, c < 120)
+    (km : List Nat) (h : It.keyOrder noSmp off km 0 0 = some S.length) :
+    It.keyScan noSmp (It.keyBytesOf off S km 0) [] = (S, km) := by
+  have := It.keyScan_rt noSmp off S hn h120 km 0 0 (Nat.zero_le _) h
+  rwa [List.take_zero] at this
+
+example : It.keyOrder 0xff (fun j => j = 1) [0, 0xff, 1, 0, 1, 2] 0 0 = some [5, 3, 9].length := by decide
+
+example : It.WellFormed itExample itExampleOpts := by decide +kernel
+example : It.WellFormed itExample {} := by decide +kernel
+example : It.read (It.write itExample itExampleOpts) = some itExample :=
+  C19_roundtrip_it _ _ (by decide +kernel)
 
 /-- IT pattern *field* codecs (note incl. off/cut/fade codes, volume, instrument).  Missing for the
 full `C19_it_pattern_codec`: the coupling invariant between the writer's and the reader's per-channel
@@ -130,6 +272,35 @@ theorem C19_it_compress_block_partial (is16 it215 : Bool) (xs : List Nat)
 
 example : ∀ x ∈ [0, 255, 128, 7, 7, 200], x < (It.Sex.cfg false).M := by decide
 
+/-- **IT packed-pattern codec**: channel-mask / last-value compression with every writer choice (mask byte resent or
+not, "same as last" bits, explicit instrument 0, opaque effects, every note-fade code, marker entries). -/
+theorem C19_it_pattern_codec (chn : Nat) (p : Pat) (opt : Nat → It.CellOpt) (i : Nat)
+    (hc : 1 ≤ chn ∧ chn ≤ 64) (hp : It.PatOk chn p) :
+    (It.unpackData chn p.rows (It.pack chn p opt i)).flatten = p.cells :=
+  It.unpackData_pack chn p opt i hc hp
+
+example : It.PatOk 2 It.exPat := by decide
+
+/-- first pass of `it_load` (channel count): the scan of the writer's pattern data never exceeds channel `chn-1`,
+and reaches it when the marker entry of the last channel is emitted -/
+theorem C19_it_channel_scan (chn : Nat) (p : Pat) (opt : Nat → It.CellOpt) (i mx : Nat)
+    (hc : 1 ≤ chn ∧ chn ≤ 64) (hp : It.PatOk chn p) (hmx : mx ≤ chn - 1) :
+    It.scanGo ((It.pack chn p opt i).length + 1) (It.pack chn p opt i) p.rows (List.replicate 64 0) mx ≤ chn - 1 ∧
+    ((opt (i + chn - 1)).marker = true →
+      It.scanGo ((It.pack chn p opt i).length + 1) (It.pack chn p opt i) p.rows (List.replicate 64 0) mx = chn - 1) :=
+  ⟨It.scanGo_pack_le chn p opt i mx hc hp hmx, It.scanGo_pack_marker chn p opt i mx hc hp hmx⟩
+
+/-- **IT 2.14 / 2.15 sample compression, whole sample, byte level**: the model of `itsex.c` (`unpack_it_sample`,
+`itsex_decompress8/16`: all code widths, width-change codes, both integrators, 16-bit block framing, multi-block,
+stereo) decodes the output of the independent width-switching compressor, for every width wish `wsel`, every
+length, followed by arbitrary bytes. -/
+theorem C19_it_sample_compression (flg len : Nat) (it215 : Bool) (wsel : Nat → Nat) (raw rest : Bytes)
+    (hlen : raw.length = len * frameBytes flg) :
+    It.Sex.decompress flg len it215 (It.Sex.compress flg len it215 wsel raw ++ rest) = some raw :=
+  It.Sex.decompress_compress flg len it215 wsel raw rest hlen
+
+example : ([1, 2, 3, 4, 5, 6, 7, 8, 9, 10, 11, 12] : Bytes).length = 3 * frameBytes (F16BIT ||| FSTEREO) := by decide
+
 /-! ## PCM -/
 
 theorem C19_pcm_sign8_involutive (b : Bytes) : signFlip false (signFlip false b) = b :=
@@ -143,5 +314,33 @@ theorem C19_pcm_sign16_involutive (b : Bytes) (n : Nat) (h : b.length = 2 * n) :
 theorem C19_pcm_delta8 (b : Bytes) : deltaDec false (deltaEnc false b) = b := deltaDec_deltaEnc8 b
 theorem C19_pcm_delta16 (b : Bytes) (n : Nat) (h : b.length = 2 * n) : deltaDec true (deltaEnc true b) = b :=
   deltaDec_deltaEnc16 b n h
+
+/-- stereo storage: left block ++ right block ↔ interleaved frames (S3M, XM, IT) -/
+theorem C19_pcm_stereo_blocks (flg len : Nat) (pcm : Bytes) (h : pcm.length = len * frameBytes flg) :
+    fromBlocks flg len (toBlocks flg len pcm) = pcm :=
+  fromBlocks_toBlocks flg len pcm h
+
+example : ([1, 2, 3, 4, 5, 6, 7, 8] : Bytes).length = 2 * frameBytes (F16BIT ||| FSTEREO) := by decide
+
+/-! ## the property, all four formats -/
+
+/-- **C19**: for every well-formed abstract song and every choice of writer options, the loader model gives back
+exactly the song the independent encoder wrote (XM: plus the empty pattern libxmp appends). -/
+theorem C19_roundtrip_all :
+    (∀ s o, Mod.WellFormed s o → Mod.NoAdpcm s.smps → Mod.read (Mod.write s o) = some s) ∧
+    (∀ s o, S3m.WellFormed s o → S3m.read (S3m.write s o) = some s) ∧
+    (∀ s o, Xm.WellFormed s o → Xm.read (Xm.write s o) = some (Xm.loaded s)) ∧
+    (∀ s o, It.WellFormed s o → It.read (It.write s o) = some s) :=
+  ⟨C19_roundtrip_mod, C19_roundtrip_s3m, C19_roundtrip_xm, C19_roundtrip_it⟩
+
+/-- S3M / IT order lists: the loader's scan from order 0 skips entries that name no stored pattern and stops at the end
+marker; `WellFormed` asks that it reaches a stored pattern (`startsValid`).  Without that the file is refused
+(model: `none`), e.g. an end marker in front; an order list that names no stored pattern at all is loaded with an
+empty order list. -/
+theorem C19_s3m_order_rule :
+    S3m.read (S3m.write { s3mExample with orders := [0xb2, 0xff, 0, 1] } {}) = none ∧
+    (S3m.read (S3m.write { s3mExample with orders := [0xfe, 5, 1] } {})).map (·.orders) = some [0xfe, 5, 1] ∧
+    (S3m.read (S3m.write { s3mExample with orders := [5, 0xff] } {})).map (·.orders) = some [] := by
+  decide +kernel
 
 end Xmp.Fmt
